@@ -70,6 +70,10 @@ def pow10Cache (bits : Nat) (k : Int) : Nat :=
     let l := bitLen p
     (2 ^ (bits - 1 + l) + p - 1) / p
 
+/-- `⌊log₂ 10^k⌋` computed exactly (`k : Int`) -/
+def pow10BinExp (k : Int) : Int :=
+  if 0 ≤ k then ((10 ^ k.toNat).log2 : Int) else -((bitLen (10 ^ (-k).toNat - 1) : Nat) : Int)
+
 /-- Declarative form: `c` has exactly `bits` bits and `c = ⌈10^k / 2^e⌉`, i.e.
 `(c-1)·2^e < 10^k ≤ c·2^e`. -/
 def IsCeilPow10 (bits : Nat) (k e : Int) (c : Nat) : Prop :=
@@ -79,6 +83,23 @@ def IsCeilPow10 (bits : Nat) (k e : Int) (c : Nat) : Prop :=
 
 instance (bits : Nat) (k e : Int) (c : Nat) : Decidable (IsCeilPow10 bits k e c) := by
   unfold IsCeilPow10; infer_instance
+
+/-- the row `c` of a `bits`-bit cache for `10^k`: `c = ⌈10^k / 2^e⌉` with `e = ⌊log₂ 10^k⌋ - (bits - 1)`, which makes
+`c` a `bits`-bit number; `e + (bits-1)` is what `floor_log2_pow10(k)` must return -/
+def IsCacheRow (bits : Nat) (k : Int) (c : Nat) : Prop :=
+  IsFloorLog2Pow10 k (pow10BinExp k) ∧ IsCeilPow10 bits k (pow10BinExp k - ((bits : Int) - 1)) c
+
+instance (bits : Nat) (k : Int) (c : Nat) : Decidable (IsCacheRow bits k c) := by unfold IsCacheRow; infer_instance
+
+/-- `-minus_k` (with `minus_k = v - kappa`) indexes a cache `[smallest, largest]` and is a documented argument
+`[lo2, hi2]` of `floor_log2_pow10`, whenever the binary exponent `q` is one of a finite float `[emin, emax]` -/
+def MinusKInRange (kappa smallest largest lo2 hi2 emin emax : Int) (q v : Int) : Prop :=
+  emin ≤ q → q ≤ emax →
+    smallest ≤ -(v - kappa) ∧ -(v - kappa) ≤ largest ∧ lo2 ≤ -(v - kappa) ∧ -(v - kappa) ≤ hi2
+
+instance (kappa smallest largest lo2 hi2 emin emax q v : Int) :
+    Decidable (MinusKInRange kappa smallest largest lo2 hi2 emin emax q v) := by
+  unfold MinusKInRange; infer_instance
 
 /-! ## Grisu cached powers -/
 
